@@ -182,6 +182,48 @@ def check_field(f, adt, field, memo):
     return out
 
 
+DEDUP = ("dedup", "dedup_by", "dedup_by_key")
+
+
+def run_dedup(rep, ctx, bodies=None, rule="R17"):
+    """`Vec::dedup*` removes *adjacent* repeats only: on a vector that is not sorted, repeats that are apart survive.
+    Every dedup call needs a `sort*` on the same vector that dominates it in the same function. Returns #sites."""
+    f = ctx.facts
+    n = 0
+    for bid in sorted(bodies if bodies is not None else f.bodies):
+        b = f.bodies[bid]
+        k = 0
+
+        def root(l):
+            seen = set()
+            while l not in seen:
+                seen.add(l)
+                ds = _defs(b, l)
+                if len(ds) == 1 and ds[0][0] == "s" and ds[0][2].get("k") == "ref":
+                    l = ds[0][2]["pl"]["l"]
+                elif len(ds) == 1 and ds[0][0] == "c" and (ds[0][2].get("callee") or "").rsplit("::", 1)[-1] in ("deref_mut", "as_mut", "as_mut_slice", "deref") \
+                        and ds[0][2]["args"] and ds[0][2]["args"][0]["k"] in ("copy", "move"):
+                    l = ds[0][2]["args"][0]["pl"]["l"]
+                else:
+                    break
+            return l
+        calls = list(b.calls())
+        for i, t in calls:
+            c = t.get("callee") or ""
+            if c.rsplit("::", 1)[-1] not in DEDUP or "Vec" not in c or not t["args"] or t["args"][0]["k"] not in ("copy", "move"):
+                continue
+            n += 1
+            r = root(t["args"][0]["pl"]["l"])
+            sorts = [j for j, u in calls if (u.get("callee") or "").rsplit("::", 1)[-1] in SORT and u["args"] and u["args"][0]["k"] in ("copy", "move")
+                     and root(u["args"][0]["pl"]["l"]) == r and j != i and b.dominates(j, i)]
+            rep.add(rule, "dedup@%s#%d:sorted" % (short(bid), k), bool(sorts),
+                    ("the vector de-duplicated at %s was sorted just before (%s)" % (t["span"], b.blocks[sorts[-1]]["term"].get("span"))) if sorts else
+                    ("`%s` at %s removes adjacent repeats only, and no sort of the same vector precedes it in %s: repeats that "
+                     "are apart survive" % (c.rsplit("::", 1)[-1], t["span"], short(bid))), t["span"])
+            k += 1
+    return n
+
+
 def run(rep, ctx, bodies=None, rule="R17"):
     """one instance per search site in `bodies` (default: every body of the crate). Returns (#sites, #judged)."""
     f = ctx.facts
